@@ -4,8 +4,8 @@ CONSTANTS
   MaxSteps = 6
   SharedDefault = FALSE
   AliasInput = FALSE
-  LeakyObserver = TRUE
-  AliasResult = FALSE
+  LeakyObserver = FALSE
+  AliasResult = TRUE
 INVARIANT Independent
 INVARIANT Deterministic
 INVARIANT FreshDefaults
